@@ -7,7 +7,8 @@ Models the code WITH the fix "keystore: Delete of a missing key returns ErrNoSuc
 implementations" (before it, FSKeystore.Delete returned the raw *PathError of os.Remove and
 MemKeystore.Delete returned nil — the two implementations disagreed).
 
-File system: a minimal flat model local to this property — regular files by full path, the system
+File system: a minimal flat model local to this property — regular files by full path, foreign
+objects (symbolic links, directories, files the keystore did not write) by full path, the system
 calls the keystore uses (`stat`, `open O_CREATE|O_EXCL`, `ReadFile`, `Remove`, `Readdirnames`), a
 per-component name length limit (`limit`, NAME_MAX = 255 on the tie's file system) and a ghost trace
 `touched` of every path handed to a system call (for the confinement theorem).
@@ -28,11 +29,21 @@ inductive FsErr where
   | notExist
   | exist
   | nameTooLong
+  | other              -- EISDIR, ELOOP, …
+deriving Repr, DecidableEq
+
+/-- objects the keystore did not create (planted in the directory, or living outside it) -/
+inductive Foreign where
+  | symlink (target : Path)
+  | dir
+  | file (data : Bytes) (keyOk : Bool)     -- `keyOk`: `UnmarshalPrivateKey data` succeeds (observed)
 deriving Repr, DecidableEq
 
 structure FS where
-  /-- regular files: full path ↦ content -/
+  /-- regular files created by the keystore: full path ↦ content -/
   files : AMap.Map Path Bytes := []
+  /-- foreign objects by full path (never at a path that `files` holds) -/
+  foreign : AMap.Map Path Foreign := []
   /-- ghost: every path passed to a system call, most recent first -/
   touched : List Path := []
 deriving Repr
@@ -43,33 +54,50 @@ def lastComp (p : Path) : Path := (p.reverse.takeWhile (· ≠ '/')).reverse
 namespace FS
 def touch (fs : FS) (p : Path) : FS := { fs with touched := p :: fs.touched }
 
+/-- the directory entry at `p` (lstat view) -/
+def entry (fs : FS) (p : Path) : Option Foreign :=
+  match AMap.find fs.foreign p with
+  | some f => some f
+  | none => (AMap.find fs.files p).map fun d => .file d true
+
+/-- `os.Stat`: follows a symbolic link (one level; planted links point at plain files or nothing) -/
 def stat (fs : FS) (limit : Nat) (p : Path) : FS × Except FsErr Unit :=
   let fs := fs.touch p
   if (lastComp p).length > limit then (fs, .error .nameTooLong)
-  else match AMap.find fs.files p with
-    | some _ => (fs, .ok ())
+  else match fs.entry p with
     | none => (fs, .error .notExist)
+    | some (.symlink t) => if (fs.entry t).isSome then (fs, .ok ()) else (fs, .error .notExist)
+    | some _ => (fs, .ok ())
 
-/-- `os.OpenFile(p, O_CREATE|O_EXCL|O_WRONLY, 0o400)` followed by one `Write` of `data` -/
+/-- `os.OpenFile(p, O_CREATE|O_EXCL|O_WRONLY, 0o400)` followed by one `Write` of `data`: fails with
+EEXIST on ANY existing directory entry — a symbolic link included, dangling or not -/
 def createExcl (fs : FS) (limit : Nat) (p : Path) (data : Bytes) : FS × Except FsErr Unit :=
   let fs := fs.touch p
   if (lastComp p).length > limit then (fs, .error .nameTooLong)
-  else match AMap.find fs.files p with
+  else match fs.entry p with
     | some _ => (fs, .error .exist)
     | none => ({ fs with files := AMap.insert fs.files p data }, .ok ())
 
-def readFile (fs : FS) (limit : Nat) (p : Path) : FS × Except FsErr Bytes :=
+/-- `os.ReadFile`: follows a symbolic link; content and whether it unmarshals as a private key -/
+def readFile (fs : FS) (limit : Nat) (p : Path) : FS × Except FsErr (Bytes × Bool) :=
   let fs := fs.touch p
   if (lastComp p).length > limit then (fs, .error .nameTooLong)
-  else match AMap.find fs.files p with
-    | some d => (fs, .ok d)
+  else match fs.entry p with
     | none => (fs, .error .notExist)
+    | some (.file d ok) => (fs, .ok (d, ok))
+    | some .dir => (fs, .error .other)
+    | some (.symlink t) =>
+      match fs.entry t with
+      | none => (fs, .error .notExist)
+      | some (.file d ok) => (fs, .ok (d, ok))
+      | some _ => (fs, .error .other)
 
+/-- `os.Remove`: removes the entry itself (a link, not its target; an empty directory too) -/
 def remove (fs : FS) (limit : Nat) (p : Path) : FS × Except FsErr Unit :=
   let fs := fs.touch p
   if (lastComp p).length > limit then (fs, .error .nameTooLong)
-  else match AMap.find fs.files p with
-    | some _ => ({ fs with files := AMap.erase fs.files p }, .ok ())
+  else match fs.entry p with
+    | some _ => ({ fs with files := AMap.erase fs.files p, foreign := AMap.erase fs.foreign p }, .ok ())
     | none => (fs, .error .notExist)
 
 /-- name of `p` inside directory `dir`, when `p` is directly inside it -/
@@ -80,7 +108,11 @@ def childName (dir p : Path) : Option Path :=
   else none
 
 def readdirnames (fs : FS) (dir : Path) : FS × List Path :=
-  (fs.touch dir, (AMap.keys fs.files).filterMap (childName dir))
+  (fs.touch dir, (AMap.keys fs.files ++ AMap.keys fs.foreign).filterMap (childName dir))
+
+/-- harness-only: plant a foreign object at `p` unless something is already there -/
+def plant (fs : FS) (p : Path) (f : Foreign) : FS × Bool :=
+  if (fs.entry p).isSome then (fs, false) else ({ fs with foreign := AMap.insert fs.foreign p f }, true)
 end FS
 
 /-! ### keystore.go -/
@@ -92,9 +124,18 @@ def encodeName (name : Bytes) : Option Path :=
   if name = [] then none
   else some (keyPrefix ++ (encode b32s name).map Char.toLower)
 
+/-- `codec.DecodeString` of Go's `encoding/base32` without padding, on arbitrary input: any character
+outside the alphabet is an error; a trailing group of 3 or 6 characters yields no bytes at all (the
+`switch dlen` has no case for them), other leftover bits are ignored -/
+def decodeStd32 (s : Path) : Option Bytes :=
+  let j := s.length % 8
+  match mapOpt b32s.decDigit s with
+  | none => none
+  | some _ => if j = 3 ∨ j = 6 then decode b32s (s.take (s.length - j)) else decode b32s s
+
 /-- `decode` -/
 def decodeName (fname : Path) : Option Bytes :=
-  if keyPrefix.isPrefixOf fname then decode b32s ((fname.drop keyPrefix.length).map Char.toUpper)
+  if keyPrefix.isPrefixOf fname then decodeStd32 ((fname.drop keyPrefix.length).map Char.toUpper)
   else none
 
 /-- `filepath.Join(ks.dir, name)` -/
@@ -145,7 +186,8 @@ def fsStep (cfg : Cfg) (fs : FS) : Op → FS × Out
     | none => (fs, .invalid)
     | some n =>
       match fs.readFile cfg.limit (join cfg.dir n) with
-      | (fs, .ok d) => (fs, .key d)
+      | (fs, .ok (d, true)) => (fs, .key d)
+      | (fs, .ok (_, false)) => (fs, .error)              -- "cannot deserialize private key file"
       | (fs, .error .notExist) => (fs, .noSuchKey)
       | (fs, .error _) => (fs, .error)
   | .delete name =>
